@@ -3,7 +3,7 @@ import ast
 
 from .framework import rule, Ob, fmt_trace, sql_events, call_events, values_in, deep_values, real_call
 from .model import AnalysisError, walk_shallow, dotted
-from .values import V
+from .values import V, C
 
 
 def _is_route(v):
@@ -268,7 +268,8 @@ def s4(ctx):
                 okretry = True
         if p.kind == 'return' and catches:
             rv = p.outcome[1]
-            if any(x.k == 'item' and x.a[0].k == 'attr' and x.a[0].a[1] == 'args' for x in values_in(rv)):
+            if any(x.k in ('item', 'field') and x.a[0].k == 'attr' and x.a[0].a[1] == 'args' and x.a[1] in (0, C(0))
+                   for x in values_in(rv)):
                 ok = True
     obs.append(Ob('S4', 'FanoutCache._remove/timeout-count-added', ok,
                   'the partial count carried by Timeout (timeout.args[0]) is not added to the total', f.loc()))
